@@ -516,6 +516,8 @@ func c13Reader(a *An) {
 			exits = append(exits, reason)
 		}
 	}
+	a.R.ob("C13.3", "reader:exits-only-when-closed", "the reader leaves its loop only because the watcher was closed (closed test, os.ErrClosed from the interrupted read, a send function reporting 'closed'): any other exit ends delivery and closes the channels while the Watcher is still open",
+		a.P.pos(rd.Pos()), nonClosedExits == 0, "loop exits: "+fmtList(uniq(exits)))
 	a.R.ob("C13.3", "reader:exits-on-ErrClosed", "a read interrupted by Close (os.ErrClosed) makes the reader exit instead of retrying", a.P.pos(rd.Pos()), errClosedExit, "loop exits: "+fmtList(uniq(exits)))
 	// (c) every latch of the outer loop that does not come from the decode loop's header is preceded by a send whose failure exits
 	contOK := true
